@@ -299,6 +299,19 @@ func cmdSelftest(args []string) int {
 		}
 	}
 
+	// 5f. DELEGATE-ERR
+	if fns, err := ssaSnippet(selftestDelegates); err != nil {
+		check("ssa snippet delegates", false, "%v", err)
+	} else {
+		for name, want := range map[string]int{"dropped": 1, "classified": 0, "single": 0} {
+			got := -1
+			if fn := ssaMethod(fns, name); fn != nil {
+				got = len(delegateErrDropped(fn))
+			}
+			check("delegateErrDropped/"+name, got == want, "%d delegate errors dropped (want %d)", got, want)
+		}
+	}
+
 	// 6. every rule table entry that names a function has the documented key shape
 	var badKeys []string
 	for k := range c14NameFilterAllowed {
@@ -585,5 +598,80 @@ func countAbove(xs []item, limit int) int {
 		}
 	}
 	return n
+}
+`
+
+// ssaMethod finds a method by name among the methods of the named types of the snippet package.
+func ssaMethod(fns map[string]*ssa.Function, name string) *ssa.Function {
+	for _, f := range fns {
+		if f.Pkg == nil {
+			continue
+		}
+		for _, m := range f.Pkg.Members {
+			tn, ok := m.(*ssa.Type)
+			if !ok {
+				continue
+			}
+			for _, t := range []types.Type{tn.Type(), types.NewPointer(tn.Type())} {
+				ms := f.Prog.MethodSets.MethodSet(t)
+				for i := 0; i < ms.Len(); i++ {
+					if ms.At(i).Obj().Name() == name {
+						if fn := f.Prog.MethodValue(ms.At(i)); fn != nil && fn.Blocks != nil {
+							return fn
+						}
+					}
+				}
+			}
+		}
+		break
+	}
+	return nil
+}
+
+const selftestDelegates = `package snippet
+
+import "errors"
+
+var errNotExist = errors.New("not exist")
+
+type bucket interface{ Stat(string) (int, error) }
+
+type union struct {
+	delegates []bucket
+	one       bucket
+}
+
+func anchor() {}
+
+func (u *union) dropped(path string) int {
+	for _, d := range u.delegates {
+		v, err := d.Stat(path)
+		if err != nil || v == 0 {
+			continue
+		}
+		return v
+	}
+	return 0
+}
+
+func (u *union) classified(path string) (int, error) {
+	for _, d := range u.delegates {
+		v, err := d.Stat(path)
+		if err != nil {
+			if errors.Is(err, errNotExist) {
+				continue
+			}
+			return 0, err
+		}
+		return v, nil
+	}
+	return 0, errNotExist
+}
+
+func (u *union) single(path string) int {
+	if v, err := u.one.Stat(path); err == nil {
+		return v
+	}
+	return 0
 }
 `
